@@ -20,8 +20,8 @@ def cases_for(ctx):
                 if len(s) < 3 or (j + k) % 3 == 0:
                     tuples.append((e, None, 500, s))
     else:
-        # length 4 through the document entry only (the other two entries share the sub-grammars; length <= 3 there)
-        tuples += [(e, None, 500, s) for e in ENTRIES for s in chars if e == "doc" or len(s) < 4]
+        # length <= 3 completely through all entries; of length 4 every eighth string, through the document entry
+        tuples += [(e, None, 500, s) for e in ENTRIES for j, s in enumerate(chars) if len(s) < 4 or (e == "doc" and j % 8 == 0)]
     # (i') bounded-exhaustive token sequences
     n_tok = 3 if quick else 4
     toks = list(token_strings(n_tok))
@@ -29,7 +29,7 @@ def cases_for(ctx):
         for j, s in enumerate(toks):
             if quick and not (s.count(" ") < 2 or (j + k) % 3 == 0):
                 continue
-            if not quick and e != "doc" and s.count(" ") >= 3:
+            if not quick and s.count(" ") >= 3 and (e != "doc" or j % 8 != 0):
                 continue
             tuples.append((e, None, 500, s))
     # (ii) grammar-generated documents and token-level mutations; the repository's parser test data
@@ -117,8 +117,8 @@ def run(ctx):
     struct_report(ctx, impl, model, cases)
     ctx.cov["rule"] = (
         "c01_parse: (i) every string of length <= 2 and (quick: a third of, per entry, offset so that the union is complete; thorough: all of) length 3..4 over the "
-        "28-symbol lexer alphabet, three entries (length 4: document entry only); (i') token sequences over 28 token symbols to length 3 (quick: "
-        "a third of length 3) / 4 (length 4: document entry only); (ii) fixed documents covering every definition kind, generated documents, their "
+        "28-symbol lexer alphabet, three entries (thorough: length <= 3 complete, every eighth string of length 4 through the document entry); (i') token sequences over 28 token symbols to length 3 (quick: "
+        "a third of length 3) / 4 (thorough: every eighth sequence of length 4, document entry); (ii) fixed documents covering every definition kind, generated documents, their "
         "token-level mutations (delete/duplicate/swap/replace/truncate at every position), the 107 files of "
         "test_data/parser, selection sets and types with mutations through their own entries; (iii) deep nests of "
         "every recursive construct at depths rl-1, rl, rl+1 for rl in {0,1,2,3,31,32,499,500,501}; (iv) all "
